@@ -1,11 +1,20 @@
 #!/bin/bash
 # usage: tools/try_wt.sh <seed dir (with patch.diff)> <ID> [<ID> ...]  -- apply the patch in a scratch worktree, run quick checks
-# with VERIF_REPO pointing there, remove the worktree.  /repo itself is never touched.
+# with VERIF_REPO pointing there, remove the worktree.  /repo itself is never touched.  A seed that was written against an
+# earlier head (before a later fix: commit touched the same lines) is applied to the newest commit it still applies to.
 set -u
 sd="$(cd "$1" && pwd)"; shift
 wt=$(mktemp -d /tmp/trywt.XXXXXX); rmdir "$wt"
-git -C /repo worktree add -q --detach "$wt" main || exit 3
-git -C "$wt" apply "$sd/patch.diff" 2>/dev/null || git -C "$wt" apply -3 "$sd/patch.diff" 2>/dev/null || { echo "patch does not apply"; git -C /repo worktree remove --force "$wt"; exit 3; }
+applied=""
+for rev in $(git -C /repo rev-list main | head -25); do
+  git -C /repo worktree add -q --detach "$wt" "$rev" || exit 3
+  if git -C "$wt" apply "$sd/patch.diff" 2>/dev/null || git -C "$wt" apply -3 "$sd/patch.diff" 2>/dev/null; then
+    if [ -z "$(git -C "$wt" diff --name-only --diff-filter=U)" ]; then applied="$rev"; break; fi
+  fi
+  git -C /repo worktree remove --force "$wt"
+done
+[ -n "$applied" ] || { echo "patch does not apply"; exit 3; }
+[ "$applied" = "$(git -C /repo rev-parse main)" ] || echo "(applied at $(git -C /repo rev-parse --short $applied), before a later fix touched the same lines)"
 cd /verif
 for id in "$@"; do
   VERIF_REPO="$wt" ./check "$id" --tier quick ${TRY_N:+--n $TRY_N} --jobs ${JOBS:-16} 2>&1 | grep -E "^(VIOLATION|OK|FAIL|infra)" | head -6
